@@ -52,18 +52,18 @@ NCOND = 4
 
 # ------------------------------------------------------------------ core language: printing
 class Occ:
-    __slots__ = ('oid', 'stmt', 'expr', 'line', 'c0', 'c1', 'probe', 'kind', 'top', 'where')
+    __slots__ = ('oid', 'stmt', 'expr', 'line', 'c0', 'c1', 'probe', 'kind', 'top', 'where', 'path')
 
     def __init__(self, **kw):
         for k, v in kw.items():
             setattr(self, k, v)
 
 
-def pr_expr(e, col, occs, stmt, where, top=False):
+def pr_expr(e, col, occs, stmt, where, top=False, path=()):
     """text of e starting at column col; records the occurrences of e and its sub-expressions
     (span of the AST node, position at which Script.infer is asked)."""
     k = e[0]
-    me = Occ(oid=None, stmt=stmt, expr=e, line=None, c0=col, c1=None, probe=None, kind=k, top=top, where=where)
+    me = Occ(oid=None, stmt=stmt, expr=e, line=None, c0=col, c1=None, probe=None, kind=k, top=top, where=where, path=tuple(path))
     occs.append(me)
     if k == 'lit':
         s = LITS[e[1]][0]
@@ -82,14 +82,14 @@ def pr_expr(e, col, occs, stmt, where, top=False):
         for i, x in enumerate(e[1]):
             if i:
                 s += ', '
-            s += pr_expr(x, col + len(s), occs, stmt, where)
+            s += pr_expr(x, col + len(s), occs, stmt, where, path=path + (i,))
         if len(e[1]) == 1:
             s += ','
         s += ')'
         me.c1 = col + len(s)
         me.probe = me.c1
     elif k == 'index':
-        s = pr_expr(e[1], col, occs, stmt, where) + '[%d]' % e[2]
+        s = pr_expr(e[1], col, occs, stmt, where, path=path + (0,)) + '[%d]' % e[2]
         me.c1 = col + len(s)
         me.probe = me.c1
     elif k == 'tern':
@@ -97,9 +97,9 @@ def pr_expr(e, col, occs, stmt, where, top=False):
         off = 0 if top else 1
         me.c0 = col + off
         s = '(' if off else ''
-        s += pr_expr(e[2], col + len(s), occs, stmt, where)
+        s += pr_expr(e[2], col + len(s), occs, stmt, where, path=path + (0,))
         s += ' if c%d else ' % e[1]
-        s += pr_expr(e[3], col + len(s), occs, stmt, where)
+        s += pr_expr(e[3], col + len(s), occs, stmt, where, path=path + (1,))
         me.c1 = col + len(s)
         if off:
             s += ')'
@@ -107,17 +107,17 @@ def pr_expr(e, col, occs, stmt, where, top=False):
     elif k == 'call':
         s = 'f%d(' % e[1]
         first = True
-        for x in e[2]:
+        for j, x in enumerate(e[2]):
             if not first:
                 s += ', '
             first = False
-            s += pr_expr(x, col + len(s), occs, stmt, where)
-        for kw, x in e[3]:
+            s += pr_expr(x, col + len(s), occs, stmt, where, path=path + (j,))
+        for j, (kw, x) in enumerate(e[3]):
             if not first:
                 s += ', '
             first = False
             s += 'n%d=' % kw
-            s += pr_expr(x, col + len(s), occs, stmt, where)
+            s += pr_expr(x, col + len(s), occs, stmt, where, path=path + (len(e[2]) + j,))
         s += ')'
         me.c1 = col + len(s)
         me.probe = me.c1
@@ -154,7 +154,7 @@ def build(prog):
                 s += {'reg': '', 'star': '*', 'sstar': '**'}[kind] + 'n%d' % x
                 if d is not None:
                     s += '='
-                    s += pr_expr(d, len(s), mine, i, 'default')
+                    s += pr_expr(d, len(s), mine, i, 'default', path=(j,))
             s += '):'
             for o in mine:
                 o.line = ln
@@ -209,31 +209,141 @@ def g_prog(prog):
 
 
 DEFS = '''
-Fixpoint subset (a b : list N) : bool := match a with [] => true | x :: r => memN x b && subset r b end.
-Definition seteq (a b : list N) : bool := subset a b && subset b a.
-(* (program, condition inputs, statement index, expression, observed run-time tag) *)
-Definition chk_eval (c : prog * list bool * nat * expr * N) : bool :=
-  let '(p, inp, i, e, t) := c in
-  match eval p inp i e with Some v => N.eqb (tagN (tag_of v)) t | None => false end.
-(* (program, condition inputs, 1 + index of the raising statement or 0) *)
-Definition chk_fail (c : prog * list bool * nat) : bool :=
+(* addressing of occurrences: (statement index, path) -> expression; a path is written as one
+   number, base 32 after a leading 1 *)
+Fixpoint dec_path (fuel : nat) (n : N) (acc : list nat) : list nat :=
+  match fuel with
+  | O => acc
+  | S f => if N.leb n 1 then acc else dec_path f (N.div n 32) (N.to_nat (N.modulo n 32) :: acc)
+  end.
+Fixpoint sub_at (e : expr) (path : list nat) : option expr :=
+  match path with
+  | [] => Some e
+  | k :: r =>
+      match e with
+      | ETuple es => match nth_error es k with Some x => sub_at x r | None => None end
+      | EIndex x _ => sub_at x r
+      | ETern _ a b => if Nat.eqb k 0 then sub_at a r else sub_at b r
+      | ECall _ args kws =>
+          match nth_error args k with
+          | Some x => sub_at x r
+          | None => match nth_error kws (k - length args) with Some (_, x) => sub_at x r | None => None end
+          end
+      | _ => None
+      end
+  end.
+Definition occ_expr (p : prog) (i : nat) (path : list nat) : option expr :=
+  match nth_error p i with
+  | Some (SAssign _ e) => sub_at e path
+  | Some (SDef _ ps _) =>
+      match path with
+      | j :: r => match nth_error ps j with Some (_, _, Some d) => sub_at d r | _ => None end
+      | [] => None
+      end
+  | _ => None
+  end.
+Definition bits (n : N) : list bool := [N.testbit n 0; N.testbit n 1; N.testbit n 2; N.testbit n 3].
+Definition mask (l : list N) : N := fold_left (fun acc t => N.lor acc (N.shiftl 1 t)) l 0%N.
+(* program, condition inputs, statement index, path, observed run-time tag *)
+Definition EV (p : prog) (inp i path t : N) := (p, inp, i, path, t).
+Definition chk_eval (c : prog * N * N * N * N) : bool :=
+  let '(p, inp, i, path, t) := c in
+  match occ_expr p (N.to_nat i) (dec_path 24 path []) with
+  | Some e => match eval p (bits inp) (N.to_nat i) e with Some v => N.eqb (tagN (tag_of v)) t | None => false end
+  | None => false
+  end.
+(* program, condition inputs, 1 + index of the raising statement or 0 *)
+Definition FF (p : prog) (inp k : N) := (p, inp, k).
+Definition chk_fail (c : prog * N * N) : bool :=
   let '(p, inp, k) := c in
-  match first_fail inp cinit p 0%nat with Some j => Nat.eqb k (S j) | None => Nat.eqb k 0%nat end.
-(* (program, statement index, expression, tags Script.infer reports) *)
-Definition chk_infer (c : prog * nat * expr * list N) : bool :=
-  let '(p, i, e, ts) := c in seteq (map tagN (ainfer_tags p i e)) ts.
+  match first_fail (bits inp) cinit p 0%nat with Some j => N.eqb k (N.of_nat (S j)) | None => N.eqb k 0 end.
+(* program, statement index, path, set of tags Script.infer reports (bit mask) *)
+Definition IN (p : prog) (i path ts : N) := (p, i, path, ts).
+Definition chk_infer (c : prog * N * N * N) : bool :=
+  let '(p, i, path, ts) := c in
+  match occ_expr p (N.to_nat i) (dec_path 24 path []) with
+  | Some e => N.eqb (mask (map tagN (ainfer_tags p (N.to_nat i) e))) ts
+  | None => false
+  end.
+Definition fails {X : Type} (f : X -> bool) (l : list X) : list N :=
+  (fix go (i : N) (l : list X) : list N :=
+     match l with [] => [] | c :: r => if f c then go (N.succ i) r else i :: go (N.succ i) r end) 0%N l.
+(* hierarchy, class, attribute, jedi (owner class, tag), python (owner class, tag); 0 = none *)
+Definition AT (h : hier) (k a jc jl pc pl : N) := (h, k, a, jc, jl, pc, pl).
 Definition chk_attr (c : hier * N * N * N * N * N * N) : bool :=
   let '(h, k, a, jc, jl, pc, pl) := c in
   let enc o := match o with Some (c, l) => (c, tagN (TLit l)) | None => (0%N, 0%N) end in
   let '(mjc, mjl) := enc (jedi_attr h k a) in
   let '(mpc, mpl) := enc (py_attr h k a) in
   N.eqb mjc jc && N.eqb mjl jl && N.eqb mpc pc && N.eqb mpl pl.
-Definition chk_mro (c : hier * N * list N * list N) : bool :=
-  let '(h, k, jm, pm) := c in
-  let nl_eqb := fix go (a b : list N) := match a, b with [], [] => true | x :: a', y :: b' => N.eqb x y && go a' b' | _, _ => false end in
-  nl_eqb (or_nil (lookup k (jedi_table [] h))) jm &&
-  nl_eqb (match c3_table [] h with Some t => or_nil (lookup k t) | None => [] end) pm.
+(* hierarchy, class, python mro as a base-32 path number (1 = class never created) *)
+Definition MR (h : hier) (k pm : N) := (h, k, pm).
+Definition chk_mro (c : hier * N * N) : bool :=
+  let '(h, k, pm) := c in
+  let want := map N.of_nat (dec_path 24 pm []) in
+  let got := match c3_table [] h with Some t => or_nil (lookup k t) | None => [] end in
+  (fix go (a b : list N) := match a, b with [] , [] => true | x :: a', y :: b' => N.eqb x y && go a' b' | _, _ => false end) got want.
 '''
+
+
+def enc_path(path):
+    n = 1
+    for x in path:
+        assert 0 <= x < 32
+        n = n * 32 + x
+    return n
+
+
+def enc_inp(inp):
+    return sum(1 << k for k, b in enumerate(inp) if b)
+
+
+def enc_tags(tags):
+    return sum(1 << t for t in set(tags))
+
+
+def coq_groups(groups, kinds, timeout=1500):
+    '''one coqc per group: group = dict(defs=[...], <kind>=[case terms]); kinds = [(kind, checker)].
+    returns {kind: [(group index, case index)] failing}, error text or None'''
+    from concurrent.futures import ThreadPoolExecutor
+
+    def one(gi):
+        g = groups[gi]
+        body = [common._EVAL_HDR, IMPORTS, DEFS] + g['defs']
+        for n, (kind, fn) in enumerate(kinds):
+            cs = g.get(kind) or []
+            if not cs:
+                continue
+            names = []
+            for j in range(0, len(cs), 400):              # keep list literals moderate
+                names.append('cs_%s_%d' % (kind, j))
+                body.append('Definition %s := [%s].' % (names[-1], ';\n'.join(cs[j:j + 400])))
+            parts = ' ++ '.join(names)
+            body.append('Eval vm_compute in (%d%%N, N.of_nat (length (%s)), fails %s (%s)).' % (n, parts, fn, parts))
+        rc, out = common._coqc_text('\n'.join(body) + '\n', 'g%d' % gi, timeout)
+        if rc != 0:
+            return gi, None, out[-3000:]
+        res = {}
+        import re
+        for m in re.finditer(r'=\s*\((\d+)%N,\s*(\d+)%N,\s*\[(.*?)\]\)\s*:', out, flags=re.S):
+            kind = kinds[int(m.group(1))][0]
+            if int(m.group(2)) != len(g.get(kind) or []):
+                return gi, None, 'case count mismatch for %s' % kind
+            res[kind] = [int(x) for x in re.findall(r'(\d+)%N', m.group(3))]
+        for kind, _ in kinds:
+            if (g.get(kind) or []) and kind not in res:
+                return gi, None, 'unparsable coqc output: ' + out[-1500:]
+        return gi, res, None
+
+    fails = {k: [] for k, _ in kinds}
+    err = None
+    with ThreadPoolExecutor(max_workers=common.NPROC) as ex:
+        for gi, res, e in ex.map(one, range(len(groups))):
+            if e and not err:
+                err = 'group %d: %s' % (gi, e)
+            for k, idx in (res or {}).items():
+                fails[k] += [(gi, i) for i in idx]
+    return fails, err
 
 
 # ------------------------------------------------------------------ executing with a recorder
@@ -264,6 +374,8 @@ def runtime_class(v):
 def execute(src, table, globs, want_mro=False):
     """run src with the expressions at the spans in `table` ({(line, c0, c1): id}) recorded.
     returns (records [(id, (class name, class line))], failing line or None, exception name, missing ids)"""
+    import warnings
+    warnings.simplefilter('ignore', SyntaxWarning)
     tree = ast.parse(src)
     w = _Wrap(table)
     tree = w.visit(tree)
@@ -596,6 +708,8 @@ class Gen:
     def trial(self, st):
         """execute the candidate after the program so far, for every live condition input.
         -> (new global dicts, number of inputs on which it raises, a str/bytes value was subscripted)"""
+        import warnings
+        warnings.simplefilter('ignore', SyntaxWarning)
         src, _, _ = build([st])
         tree = _NoStrIndex().visit(ast.parse(src))
         ast.fix_missing_locations(tree)
@@ -774,7 +888,7 @@ def _core_task(item):
         res, exc = ask(script, o.line, col)
         answers[o.oid] = dict(res=res, exc=exc, col=col)
     return dict(kind=kind, src=src, prog=prog, cls_line=cls_line, runs=runs, answers=answers,
-                occs=[(o.oid, o.stmt, o.expr, o.line, o.c0, o.c1, o.kind, o.where) for o in occs])
+                occs=[(o.oid, o.stmt, o.expr, o.line, o.c0, o.c1, o.kind, o.where, o.path) for o in occs])
 
 
 # ------------------------------------------------------------------ mro stream
@@ -868,8 +982,10 @@ def _mro_task(item):
         try:
             exec(compile(ast.Module(body=[node], type_ignores=[]), '<h>', 'exec'), g)
         except Exception as e:
-            fail = (node.lineno, type(e).__name__)
-            break
+            if isinstance(node, ast.ClassDef):          # inconsistent MRO: the program ends here
+                fail = (node.lineno, type(e).__name__)
+                break
+            # a probe statement raising AttributeError: the attribute is not defined along the MRO
     for c, _, _ in h:
         k = g.get('K%d' % c)
         if k is not None and 'x%d' % c in g:
@@ -910,20 +1026,20 @@ def _mro_task(item):
     return dict(src=src, h=h, probes=out, mros=mros, fail=fail, cls_line=cls_line)
 
 
-# ------------------------------------------------------------------ run
-def g_inp(inp):
-    return common.g_list(inp, common.g_bool, 'bool')
+# ------------------------------------------------------------------ core / bind streams
+KINDS = [('ev', 'chk_eval'), ('ff', 'chk_fail'), ('inf', 'chk_infer')]
+WHAT = {'ev': 'Coq eval (concrete semantics) vs CPython',
+        'ff': 'Coq first_fail (which statement raises) vs CPython',
+        'inf': 'Coq ainfer (abstract evaluator) vs Script.infer'}
 
 
 def core_stream(ctx, items, stats):
     import time
     t0 = time.time()
-    results = common.pmap(_core_task, items, chunksize=2)
-    stats['t_jedi_exec_s'] = stats.get('t_jedi_exec_s', 0) + round(time.time() - t0, 1)
-    defs = [DEFS]
-    ev_cases, ev_meta = [], []
-    ff_cases, ff_meta = [], []
-    in_cases, in_meta = [], []
+    results = common.pmap(_core_task, items, chunksize=4)
+    stats['t_jedi_exec_s'] += round(time.time() - t0, 1)
+    groups, gmeta = [], []
+    cur, curm = None, None
     pi = 0
     for item, r in zip(items, results):
         if 'skip' in r:
@@ -933,16 +1049,21 @@ def core_stream(ctx, items, stats):
             else:
                 ctx.violation('obligation', dict(what='check machinery: ' + str(r['skip'])[:300], source=r.get('src')), nofail=True)
             continue
+        if cur is None or len(cur['defs']) >= 20:
+            cur = dict(defs=[], ev=[], ff=[], inf=[])
+            curm = dict(ev=[], ff=[], inf=[])
+            groups.append(cur)
+            gmeta.append(curm)
         kind = r['kind']
         stats['programs_' + kind] += 1
         stats['statements'] += len(r['prog'])
         pname = 'p%d' % pi
         pi += 1
-        defs.append('Definition %s := %s.' % (pname, g_prog(r['prog'])))
+        gp = g_prog(r['prog'])
+        cur['defs'].append('Definition %s := %s.' % (pname, gp))
         occs = {o[0]: o for o in r['occs']}
         cls_line = {int(k): v for k, v in r['cls_line'].items()}
-        single = {}
-        jtags = {}
+        single, jtags = {}, {}
         # (b) Script.infer vs ainfer
         for oid, a in sorted(r['answers'].items()):
             o = occs[oid]
@@ -954,15 +1075,15 @@ def core_stream(ctx, items, stats):
             jtags[oid] = tags
             stats['probes'] += 1
             ctx.count(kind + '-infer', (r['src'], oid), nontrivial=bool(tags))
-            in_cases.append('(%s, %d%%nat, %s, %s)' % (pname, o[1], g_expr(o[2]), common.g_list(tags, common.g_N, 'N')))
-            in_meta.append(dict(source=r['src'], line=o[3], column=a['col'], stmt=o[1], expr=g_expr(o[2]), infer=a['res'], program=g_prog(r['prog'])))
+            cur['inf'].append('IN %s %d %d %d' % (pname, o[1], enc_path(o[8]), enc_tags(tags)))
+            curm['inf'].append(dict(source=r['src'], line=o[3], column=a['col'], stmt=o[1], expr=g_expr(o[2]), infer=a['res'], program=gp))
         # (a) execution vs eval, (c) the property
         for run_ in r['runs']:
             stats['runs'] += 1
             k = 0 if run_['fail'] is None else run_['fail'] + 1
             stats['runs_raising'] += k != 0
-            ff_cases.append('(%s, %s, %d%%nat)' % (pname, g_inp(run_['inp']), k))
-            ff_meta.append(dict(source=r['src'], inputs=run_['inp'], raising_statement=run_['fail'], exception=run_['exc'], program=g_prog(r['prog'])))
+            cur['ff'].append('FF %s %d %d' % (pname, enc_inp(run_['inp']), k))
+            curm['ff'].append(dict(source=r['src'], inputs=run_['inp'], raising_statement=run_['fail'], exception=run_['exc'], program=gp))
             ctx.count(kind + '-run', (r['src'], tuple(run_['inp'])), nontrivial=True)
             seen = set()
             for oid, rc in run_['rec']:
@@ -974,9 +1095,9 @@ def core_stream(ctx, items, stats):
                 seen.add((oid, rt))
                 stats['reached'] += 1
                 ctx.count(kind + '-eval', (r['src'], oid, tuple(run_['inp'])), nontrivial=True)
-                ev_cases.append('(%s, %s, %d%%nat, %s, %d%%N)' % (pname, g_inp(run_['inp']), o[1], g_expr(o[2]), rt))
-                ev_meta.append(dict(source=r['src'], inputs=run_['inp'], line=o[3], span=[o[4], o[5]], stmt=o[1], expr=g_expr(o[2]),
-                                    runtime=list(rc), program=g_prog(r['prog'])))
+                cur['ev'].append('EV %s %d %d %d %d' % (pname, enc_inp(run_['inp']), o[1], enc_path(o[8]), rt))
+                curm['ev'].append(dict(source=r['src'], inputs=run_['inp'], line=o[3], span=[o[4], o[5]], stmt=o[1], expr=g_expr(o[2]),
+                                       runtime=list(rc), program=gp))
                 if oid not in jtags:
                     continue
                 if oid not in single:
@@ -984,35 +1105,626 @@ def core_stream(ctx, items, stats):
                 stats['property_checks'] += 1
                 stats['single_valued'] += single[oid]
                 a = r['answers'][oid]
-                names = [(d[0], d[2]) for d in a['res'] if d[1] == 'instance' and (d[2] is None) == (rc[1] is None)]
+                names = [(d[0], d[2]) for d in a['res'] if d[1] == 'instance' and d[3]]
                 ok_in = rc in names and rt in jtags[oid]
                 ok_exact = (not single[oid]) or jtags[oid] == [rt]
                 if not ok_in or not ok_exact:
                     ctx.deviation(dict(stream=kind, cls='class-missing' if not ok_in else 'not-exact', where=o[7]),
                                   dict(source=r['src'], line=o[3], column=a['col'], inputs=run_['inp'], runtime=list(rc), infer=a['res'],
-                                       stmt=o[1], expr=g_expr(o[2]), program=g_prog(r['prog'])),
+                                       stmt=o[1], expr=g_expr(o[2]), program=gp),
                                   'line %d col %d: run-time class %r, infer reports %r%s' % (
                                       o[3], a['col'], rc, a['res'], '' if not ok_in else ' (single-valued expression: must be exactly that class)'))
-    alldefs = '\n'.join(defs)
-    for name, fn, cases, meta, what in (
-            ('eval', 'chk_eval', ev_cases, ev_meta, 'Coq eval (concrete semantics) vs CPython'),
-            ('first_fail', 'chk_fail', ff_cases, ff_meta, 'Coq first_fail (which statement raises) vs CPython'),
-            ('ainfer', 'chk_infer', in_cases, in_meta, 'Coq ainfer (abstract evaluator) vs Script.infer')):
-        t0 = time.time()
-        fails, err = common.coq_failing(IMPORTS, fn, cases, shard=600, defs=alldefs, timeout=1200)
-        stats['t_coq_%s_s' % name] = stats.get('t_coq_%s_s' % name, 0) + round(time.time() - t0, 1)
-        if err:
-            raise RuntimeError('coq evaluation failed (%s): %s' % (name, err))
-        stats['coq_' + name + '_cases'] = stats.get('coq_' + name + '_cases', 0) + len(cases)
-        stats['coq_' + name + '_disagree'] = stats.get('coq_' + name + '_disagree', 0) + len(fails)
-        for i in fails[:4]:
-            m = meta[i]
-            if name == 'ainfer':
-                model = common.coq_show(IMPORTS, ['map tagN (ainfer_tags %s %d%%nat %s)' % (m['program'], m['stmt'], m['expr'])], defs=DEFS)
-            elif name == 'eval':
-                model = common.coq_show(IMPORTS, ['eval %s %s %d%%nat %s' % (m['program'], g_inp(m['inputs']), m['stmt'], m['expr'])], defs=DEFS)
+    t0 = time.time()
+    fails, err = coq_groups(groups, KINDS)
+    stats['t_coq_s'] += round(time.time() - t0, 1)
+    if err:
+        raise RuntimeError('coq evaluation failed: ' + err)
+    for kind, _ in KINDS:
+        stats['coq_%s_cases' % kind] += sum(len(g[kind]) for g in groups)
+        stats['coq_%s_disagree' % kind] += len(fails[kind])
+        for gi, ci in fails[kind][:4]:
+            m = gmeta[gi][kind][ci]
+            if kind == 'inf':
+                q = 'map tagN (ainfer_tags %s %d%%nat %s)' % (m['program'], m['stmt'], m['expr'])
+            elif kind == 'ev':
+                q = 'eval %s %s %d%%nat %s' % (m['program'], g_inp(m['inputs']), m['stmt'], m['expr'])
             else:
-                model = common.coq_show(IMPORTS, ['first_fail %s cinit %s 0%%nat' % (g_inp(m['inputs']), m['program'])], defs=DEFS)
-            ctx.violation('obligation', dict(what='correspondence %s: model and implementation differ (the property oracle found no failing input here)' % what,
+                q = 'first_fail %s cinit %s 0%%nat' % (g_inp(m['inputs']), m['program'])
+            model = common.coq_show(IMPORTS, [q])
+            ctx.violation('obligation', dict(what='correspondence %s: model and implementation differ (the property oracle found no failing input at this case)' % WHAT[kind],
                                              input=m, model=model[-1500:]), nofail=True)
+    for r in results[:2]:
+        if 'src' in r and 'runs' in r:
+            ctx.sample(dict(stream=r['kind'], source=r['src'], probes=len(r['answers']), runs=len(r['runs'])))
     return results
+
+
+def g_inp(inp):
+    return common.g_list(inp, common.g_bool, 'bool')
+
+
+# ------------------------------------------------------------------ mro stream
+def mro_stream(ctx, hiers, stats):
+    results = common.pmap(_mro_task, list(enumerate(hiers)), chunksize=8)
+    groups, gmeta = [], []
+    cur = None
+    hi = 0
+    for h, r in zip(hiers, results):
+        if 'skip' in r:
+            stats['skipped'] += 1
+            if 'exc' in r:
+                ctx.deviation(dict(stream='mro', exc=r['exc']['exc'], site=r['exc']['site']), dict(source=r.get('src'), error=r['exc']), 'Script() raised')
+            continue
+        if cur is None or len(cur['defs']) >= 40:
+            cur = dict(defs=[], at=[], mr=[])
+            curm = dict(at=[], mr=[])
+            groups.append(cur)
+            gmeta.append(curm)
+        stats['hierarchies'] += 1
+        stats['hier_class_stmt_raises'] += r['fail'] is not None
+        hname = 'h%d' % hi
+        hi += 1
+        gh = g_hier(h)
+        cur['defs'].append('Definition %s := %s.' % (hname, gh))
+        mros = {int(k): v for k, v in r['mros'].items()}
+        for c, _, _ in h:
+            cur['mr'].append('MR %s %d %d' % (hname, c, enc_path(mros.get(c, []))))
+            curm['mr'].append(dict(source=r['src'], cls=c, python_mro=mros.get(c), hierarchy=gh))
+            ctx.count('mro-c3', (r['src'], c), nontrivial=len(mros.get(c, [])) > 2)
+        for pr in r['probes']:
+            if pr['exc']:
+                ctx.deviation(dict(stream='mro', exc=pr['exc']['exc'], site=pr['exc']['site']),
+                              dict(source=r['src'], line=pr['line'], error=pr['exc']), 'Script.infer/goto raised')
+                continue
+            stats['mro_probes'] += 1
+            res = pr['res']
+            jl = 0
+            if len(res) == 1 and res[0][1] == 'instance' and res[0][2] is None:
+                jl = TAGN.get(res[0][0], 9)
+            elif res:
+                jl = 9
+            jc = (pr['owner'] or 0) if res else 0
+            py = pr['py']
+            pc, pl = (py[0] or 0, TAGN.get(py[1], 9)) if py else (0, 0)
+            cur['at'].append('AT %s %d %d %d %d %d %d' % (hname, pr['c'], pr['a'], jc, jl, pc, pl))
+            curm['at'].append(dict(source=r['src'], line=pr['line'], cls=pr['c'], attr=pr['a'], infer=res, jedi_owner=pr['owner'], python=py, hierarchy=gh))
+            ctx.count('mro-attr', (r['src'], pr['c'], pr['a']), nontrivial=py is not None)
+            # the property itself: single-valued expression -> exactly the run-time class
+            if py is not None:
+                stats['property_checks'] += 1
+                if jl != pl:
+                    # classifier computed from the input: the class Python takes the attribute from is not the first
+                    # definer in depth-first order (only possible with multiple inheritance), and jedi answers with
+                    # the depth-first definer
+                    dfs = dfs_owner(h, pr['c'], pr['a'])
+                    cls = 'diamond-override-in-later-branch' if (dfs is not None and dfs != pc and jc == dfs) else 'other'
+                    ctx.deviation(dict(stream='mro', cls=cls),
+                                  dict(source=r['src'], line=pr['line'], runtime=py, infer=res, jedi_owner=pr['owner'], hierarchy=gh),
+                                  'line %d: attribute comes from class K%s (%s) at run time; infer reports %r (found in K%s)' % (
+                                      pr['line'], py[0], py[1], res, pr['owner']))
+    fails, err = coq_groups(groups, [('at', 'chk_attr'), ('mr', 'chk_mro')])
+    if err:
+        raise RuntimeError('coq evaluation failed (mro): ' + err)
+    for kind, what in (('at', 'Coq jedi_attr / py_attr vs Script.infer+goto / CPython attribute lookup'), ('mr', 'Coq c3_table vs CPython __mro__')):
+        stats['coq_%s_cases' % kind] += sum(len(g[kind]) for g in groups)
+        stats['coq_%s_disagree' % kind] += len(fails[kind])
+        for gi, ci in fails[kind][:4]:
+            m = gmeta[gi][kind][ci]
+            q = ('(jedi_attr %s %d %d, py_attr %s %d %d)' % (m['hierarchy'], m['cls'], m['attr'], m['hierarchy'], m['cls'], m['attr'])
+                 if kind == 'at' else '(c3_table [] %s, jedi_table [] %s)' % (m['hierarchy'], m['hierarchy']))
+            model = common.coq_show(IMPORTS, [q])
+            ctx.violation('obligation', dict(what='correspondence %s: model and implementation differ' % what, input=m, model=model[-1500:]), nofail=True)
+    for r in results[:1]:
+        if 'src' in r:
+            ctx.sample(dict(stream='mro', source=r['src']))
+
+
+def dfs_owner(h, c, a):
+    """harness-side depth-first search for the first class defining attribute a (independent of the Coq model)"""
+    byid = {k[0]: k for k in h}
+    seen = []
+
+    def walk(x):
+        if x in seen or x not in byid:
+            return
+        seen.append(x)
+        for b in byid[x][1]:
+            walk(b)
+    walk(c)
+    for x in seen:
+        if any(at == a for at, _ in byid[x][2]):
+            return x
+    return None
+
+
+# ------------------------------------------------------------------ exploration stream (model-free)
+# Programs over the wider documented feature list, assembled from parametrised scenarios.  Every
+# name r_*/x_* bound anywhere is a probe: the classes of the values bound to it at run time must be
+# among the definitions Script.infer reports at that binding occurrence (x_*: exactly that class).
+EX_PRELUDE = ['class Ka:', '    pass', 'class Kb(Ka):', '    pass', 'class Kc:', '    pass']
+EX_VALUES = ['1', "'s'", '2.5', "b'b'", 'Ka()', 'Kb()', 'Kc()']
+EX_ANN = {'1': 'int', "'s'": 'str', '2.5': 'float', "b'b'": 'bytes', 'Ka()': 'Ka', 'Kb()': 'Kb', 'Kc()': 'Kc'}
+
+
+def sc_closure(u, V, rng):
+    a, b, c = V(), V(), V()
+    return ['def outer_%s(p):' % u,
+            '    y = %s' % a,
+            '    def inner(q):',
+            '        return (p, y, q)',
+            '    return inner',
+            'x_%s_a = outer_%s(%s)(%s)[0]' % (u, u, b, c),
+            'x_%s_b = outer_%s(%s)(%s)[1]' % (u, u, b, c),
+            'x_%s_c = outer_%s(%s)(%s)[2]' % (u, u, b, c)]
+
+
+def sc_lambda(u, V, rng):
+    a, b, c, d = V(), V(), V(), V()
+    return ['f_%s = lambda p, q=%s: (q, p)' % (u, a),
+            'x_%s_a = f_%s(%s)[0]' % (u, u, b),
+            'x_%s_b = f_%s(%s, %s)[0]' % (u, u, b, c),
+            'x_%s_c = f_%s(q=%s, p=%s)[1]' % (u, u, c, d),
+            'x_%s_d = (lambda: %s)()' % (u, d)]
+
+
+def sc_generator(u, V, rng):
+    a, b, c = V(), V(), V()
+    out = ['def g_%s(p):' % u,
+           '    yield %s' % a,
+           '    yield p',
+           'for r_%s_a in g_%s(%s):' % (u, u, b),
+           '    pass',
+           'def h_%s():' % u,
+           '    yield (%s, %s)' % (a, c),
+           'for x_%s_b, x_%s_c in h_%s():' % (u, u, u),
+           '    pass']
+    if rng.random() < 0.5:
+        out += ['def d_%s():' % u, '    yield from g_%s(%s)' % (u, c), 'for r_%s_d in d_%s():' % (u, u), '    pass']
+    return out
+
+
+def sc_comprehension(u, V, rng):
+    a, b, c = V(), V(), V()
+    return ['l_%s = [e for e in (%s, %s)]' % (u, a, b),
+            'r_%s_a = l_%s[0]' % (u, u),
+            'for r_%s_b in l_%s:' % (u, u),
+            '    pass',
+            'r_%s_c = [(e, %s) for e in (%s, %s)][1][0]' % (u, c, a, b),
+            'x_%s_d = [(e, %s) for e in (%s, %s)][1][1]' % (u, c, a, b),
+            'for r_%s_e in (e for e in (%s, %s)):' % (u, a, b),
+            '    pass']
+
+
+def sc_decorator(u, V, rng):
+    a, b = V(), V()
+    return ['def deco_%s(fn):' % u,
+            '    def w(p):',
+            '        return (fn(p), %s)' % a,
+            '    return w',
+            'def ident_%s(fn):' % u,
+            '    return fn',
+            '@deco_%s' % u,
+            'def d_%s(p):' % u,
+            '    return p',
+            '@ident_%s' % u,
+            'def e_%s(p):' % u,
+            '    return (p,)',
+            'x_%s_a = d_%s(%s)[0]' % (u, u, b),
+            'x_%s_b = d_%s(%s)[1]' % (u, u, b),
+            'x_%s_c = e_%s(%s)[0]' % (u, u, b)]
+
+
+def sc_descriptors(u, V, rng):
+    a, b, c = V(), V(), V()
+    return ['class P_%s:' % u,
+            '    def __init__(self, p):',
+            '        self.p = p',
+            '    @property',
+            '    def prop(self):',
+            '        return self.p',
+            '    @staticmethod',
+            '    def sm(q):',
+            '        return (q, %s)' % a,
+            '    @classmethod',
+            '    def cm(cls, q):',
+            '        return cls(q)',
+            'o_%s = P_%s(%s)' % (u, u, b),
+            'x_%s_a = o_%s.prop' % (u, u),
+            'x_%s_b = o_%s.sm(%s)[0]' % (u, u, c),
+            'x_%s_c = P_%s.sm(%s)[1]' % (u, u, c),
+            'x_%s_d = P_%s.cm(%s)' % (u, u, c),
+            'x_%s_e = o_%s.cm(%s).prop' % (u, u, c)]
+
+
+def sc_magic(u, V, rng):
+    a, b, c, d = V(), V(), V(), V()
+    return ['class M_%s:' % u,
+            '    def __init__(self, p):',
+            '        self.p = p',
+            '    def __call__(self, q):',
+            '        return (q, self.p)',
+            '    def __getitem__(self, i):',
+            '        return %s' % a,
+            '    def __iter__(self):',
+            '        yield self.p',
+            '        yield %s' % b,
+            '    def __enter__(self):',
+            '        return self.p',
+            '    def __exit__(self, *e):',
+            '        pass',
+            'm_%s = M_%s(%s)' % (u, u, c),
+            'x_%s_a = m_%s(%s)[0]' % (u, u, d),
+            'x_%s_b = m_%s(%s)[1]' % (u, u, d),
+            'x_%s_c = m_%s[0]' % (u, u),
+            'for r_%s_d in m_%s:' % (u, u),
+            '    pass',
+            'with m_%s as x_%s_e:' % (u, u),
+            '    pass']
+
+
+def sc_isinstance(u, V, rng):
+    a, b = V(), V()
+    return ['def n_%s(p):' % u,
+            '    if isinstance(p, Ka):',
+            '        r_%s_a = p' % u,
+            '        return p',
+            '    r_%s_b = p' % u,
+            '    return %s' % a,
+            'r_%s_c = n_%s(%s)' % (u, u, b),
+            'r_%s_d = n_%s(Kb())' % (u, u)]
+
+
+def sc_annotation(u, V, rng):
+    a = V()
+    t = EX_ANN[a]
+    b = V()
+    return ['def an_%s(p: %s, q) -> %s:' % (u, t, t),
+            '    x_%s_a = p' % u,
+            '    return p',
+            'x_%s_b = an_%s(%s, %s)' % (u, u, a, b),
+            'x_%s_c: %s = %s' % (u, t, a)]
+
+
+def sc_docstring(u, V, rng):
+    a = rng.choice(['Ka()', 'Kb()', 'Kc()'])
+    t = EX_ANN[a]
+    b = V()
+    return ['def ds_%s(p, q):' % u,
+            '    """',
+            '    :type p: %s' % t,
+            '    :rtype: %s' % t,
+            '    """',
+            '    r_%s_a = p' % u,
+            '    return p',
+            'r_%s_b = ds_%s(%s, %s)' % (u, u, a, b)]
+
+
+def sc_inherit(u, V, rng):
+    a, b, c, d, e = V(), V(), V(), V(), V()
+    out = ['class I_%s:' % u,
+           '    ca = %s' % a,
+           '    def __init__(self, p, q=%s):' % b,
+           '        self.p = p',
+           '        self.q = q',
+           '    def m(self):',
+           '        return (self.p, self.q, self.ca)',
+           '    def me(self):',
+           '        return self',
+           'class J_%s(I_%s):' % (u, u),
+           '    cb = %s' % c,
+           '    def n(self):',
+           '        return self.m()[0]',
+           'i_%s = I_%s(%s)' % (u, u, d),
+           'j_%s = J_%s(%s, %s)' % (u, u, e, d),
+           'x_%s_a = i_%s.p' % (u, u),
+           'x_%s_b = i_%s.q' % (u, u),
+           'x_%s_c = j_%s.q' % (u, u),
+           'x_%s_d = j_%s.m()[0]' % (u, u),
+           'x_%s_e = j_%s.n()' % (u, u),
+           'x_%s_f = j_%s.ca' % (u, u),
+           'x_%s_g = j_%s.cb' % (u, u),
+           'x_%s_h = j_%s.me().me().m()[2]' % (u, u),
+           'x_%s_i = j_%s.me()' % (u, u)]
+    return out
+
+
+def sc_super_init(u, V, rng):
+    a, b, c = V(), V(), V()
+    return ['class S_%s:' % u,
+            '    def __init__(self, p, q=%s):' % a,
+            '        self.p = p',
+            '        self.q = q',
+            'class T_%s(S_%s):' % (u, u),
+            '    def __init__(self, p):',
+            '        super().__init__(p, %s)' % b,
+            't_%s = T_%s(%s)' % (u, u, c),
+            'x_%s_a = t_%s.p' % (u, u),
+            'x_%s_b = t_%s.q' % (u, u)]
+
+
+def sc_flow(u, V, rng):
+    a, b, c, d = V(), V(), V(), V()
+    return ['class E_%s(Exception):' % u,
+            '    pass',
+            'for r_%s_a in (%s, %s):' % (u, a, b),
+            '    pass',
+            'for x_%s_b, x_%s_c in ((%s, %s), (%s, %s)):' % (u, u, a, b, a, b),
+            '    pass',
+            'try:',
+            '    r_%s_d = %s' % (u, c),
+            '    raise E_%s()' % u,
+            'except E_%s as x_%s_e:' % (u, u),
+            '    r_%s_f = %s' % (u, d),
+            'if cond_%s:' % u,
+            '    v_%s = %s' % (u, a),
+            'else:',
+            '    v_%s = %s' % (u, b),
+            'r_%s_g = v_%s' % (u, u)]
+
+
+def sc_unpack(u, V, rng):
+    a, b, c = V(), V(), V()
+    return ['x_%s_a, x_%s_b = (%s, %s)' % (u, u, a, b),
+            '(x_%s_c, (x_%s_d, x_%s_e)) = (%s, (%s, %s))' % (u, u, u, a, b, c),
+            '[x_%s_f, x_%s_g] = [%s, %s]' % (u, u, b, c),
+            't_%s = (%s, %s, %s)' % (u, a, b, c),
+            'x_%s_h, x_%s_i, x_%s_j = t_%s' % (u, u, u, u),
+            'x_%s_k, x_%s_l = x_%s_b, x_%s_a' % (u, u, u, u)]
+
+
+def sc_star_unpack(u, V, rng):
+    a, b, c = V(), V(), V()
+    return ['x_%s_a, *x_%s_b = (%s, %s, %s)' % (u, u, a, b, c)]
+
+
+def sc_containers(u, V, rng):
+    a, b, c = V(), V(), V()
+    return ['x_%s_a = [%s, %s][1]' % (u, a, b),
+            "x_%s_b = {'k': %s, 'l': %s}['l']" % (u, a, b),
+            'x_%s_c = (%s, (%s, %s))[1][0]' % (u, a, b, c),
+            'x_%s_d = (%s, %s, %s)[-1]' % (u, a, b, c),
+            'x_%s_e = [%s, %s]' % (u, a, b),
+            "x_%s_f = {'k': %s}" % (u, a),
+            'x_%s_g = (%s, %s)' % (u, a, b)]
+
+
+def sc_params(u, V, rng):
+    a, b, c, d = V(), V(), V(), V()
+    return ['gv_%s = %s' % (u, a),
+            'def rd_%s():' % u,
+            '    return gv_%s' % u,
+            'x_%s_a = rd_%s()' % (u, u),
+            'def st_%s(*args):' % u,
+            '    return args[1]',
+            'x_%s_b = st_%s(%s, %s, %s)' % (u, u, b, c, d),
+            'def kw_%s(**kwargs):' % u,
+            "    return kwargs['k']",
+            'x_%s_c = kw_%s(j=%s, k=%s)' % (u, u, b, c),
+            'def df_%s(p, q=%s, *, r=%s):' % (u, a, b),
+            '    return (p, q, r)',
+            'x_%s_d = df_%s(%s, r=%s)[1]' % (u, u, c, d),
+            'x_%s_e = df_%s(%s, r=%s)[2]' % (u, u, c, d)]
+
+
+def sc_dynparam(u, V, rng):
+    a, b = V(), V()
+    return ['def dp_%s(p):' % u,
+            '    r_%s_a = p' % u,
+            '    return (p,)',
+            'x_%s_b = dp_%s(%s)[0]' % (u, u, a),
+            'x_%s_c = dp_%s(%s)[0]' % (u, u, b)]
+
+
+SCENARIOS = [('closure', sc_closure), ('lambda', sc_lambda), ('generator', sc_generator), ('comprehension', sc_comprehension),
+             ('decorator', sc_decorator), ('descriptors', sc_descriptors), ('magic', sc_magic), ('isinstance', sc_isinstance),
+             ('annotation', sc_annotation), ('docstring', sc_docstring), ('inherit', sc_inherit), ('super_init', sc_super_init),
+             ('flow', sc_flow), ('unpack', sc_unpack), ('star_unpack', sc_star_unpack), ('containers', sc_containers),
+             ('params', sc_params), ('dynparam', sc_dynparam)]
+
+
+def gen_explore(rng, k):
+    lines = list(EX_PRELUDE)
+    where = {}
+    for j in range(k):
+        name, fn = rng.choice(SCENARIOS)
+        u = '%s%d' % (name[:2], j)
+        block = fn(u, lambda: rng.choice(EX_VALUES), rng)
+        for n in range(len(block)):
+            where[len(lines) + n + 1] = name
+        lines += block
+    return '\n'.join(lines) + '\n', where
+
+
+class _Rec(ast.NodeTransformer):
+    """after every statement that binds names r_*/x_* insert a recorder call"""
+
+    def __init__(self, srclines):
+        self.srclines = srclines
+        self.probes = {}
+
+    def _names(self, target):
+        out = []
+        for n in ast.walk(target):
+            if isinstance(n, ast.Name) and isinstance(n.ctx, ast.Store) and n.id[:2] in ('r_', 'x_'):
+                out.append((n.lineno, n.col_offset, n.id))
+        return out
+
+    def _calls(self, names, at):
+        out = []
+        for ln, col, nm in names:
+            self.probes[(ln, col)] = nm
+            call = ast.Expr(ast.Call(func=ast.Name(id='_jv_q', ctx=ast.Load()),
+                                     args=[ast.Constant(ln), ast.Constant(col), ast.Name(id=nm, ctx=ast.Load())], keywords=[]))
+            out.append(ast.copy_location(call, at))
+        return out
+
+    def _block(self, body):
+        new = []
+        for st in body:
+            st = self.visit(st)
+            new.append(st)
+            if isinstance(st, ast.Assign):
+                names = [x for t in st.targets for x in self._names(t)]
+                new += self._calls(names, st)
+            elif isinstance(st, ast.AnnAssign) and st.value is not None:
+                new += self._calls(self._names(st.target), st)
+        return new
+
+    def generic_visit(self, node):
+        for field in ('body', 'orelse', 'finalbody'):
+            body = getattr(node, field, None)
+            if isinstance(body, list) and body and isinstance(body[0], ast.stmt):
+                setattr(node, field, self._block(body))
+        if isinstance(node, ast.Try):
+            for h in node.handlers:
+                self.generic_visit(h)
+        if isinstance(node, ast.For):
+            node.body = self._calls(self._names(node.target), node) + node.body
+        if isinstance(node, ast.With):
+            names = [x for it in node.items if it.optional_vars is not None for x in self._names(it.optional_vars)]
+            node.body = self._calls(names, node) + node.body
+        if isinstance(node, ast.ExceptHandler) and node.name and node.name[:2] in ('r_', 'x_'):
+            line = self.srclines[node.lineno - 1]
+            col = line.index(' as ' + node.name) + 4
+            node.body = self._calls([(node.lineno, col, node.name)], node) + node.body
+        if isinstance(node, ast.ClassDef):
+            mark = ast.Assign(targets=[ast.Name(id='__jv_line__', ctx=ast.Store())], value=ast.Constant(value=node.lineno))
+            node.body.insert(0, ast.copy_location(mark, node))
+        return node
+
+
+def _explore_task(item):
+    idx, src, where = item
+    import jedi
+    try:
+        tree = ast.parse(src)
+    except SyntaxError as e:
+        return dict(skip='syntax %r' % (e,), src=src)
+    rec = _Rec(src.split('\n'))
+    tree = rec.visit(tree)
+    ast.fix_missing_locations(tree)
+    seen = {}
+    r = random.Random(idx)
+    g = {'_jv_q': lambda ln, col, v: seen.setdefault((ln, col), set()).add(runtime_class(v))}
+    for ln, name in where.items():
+        pass
+    import re
+    for m in re.finditer(r'\bcond_\w+', src):
+        g[m.group(0)] = r.random() < 0.5
+    err = None
+    try:
+        exec(compile(tree, '<explore>', 'exec'), g)
+    except Exception as e:
+        err = '%s: %s' % (type(e).__name__, e)
+    out = []
+    try:
+        script = jedi.Script(src)
+    except Exception as e:
+        return dict(skip='script', exc=common.exc_sig(e), src=src)
+    for (ln, col), classes in sorted(seen.items()):
+        res, exc = ask(script, ln, col)
+        out.append(dict(line=ln, col=col, name=rec.probes.get((ln, col)), runtime=sorted(classes, key=repr), res=res, exc=exc,
+                        scenario=where.get(ln) or where.get(str(ln))))
+    return dict(src=src, probes=out, err=err)
+
+
+def explore_stream(ctx, items, stats):
+    results = common.pmap(_explore_task, items, chunksize=4)
+    for r in results:
+        if 'skip' in r:
+            stats['skipped'] += 1
+            if 'exc' in r:
+                ctx.deviation(dict(stream='explore', exc=r['exc']['exc'], site=r['exc']['site']), dict(source=r.get('src'), error=r['exc']), 'Script() raised')
+            else:
+                ctx.violation('obligation', dict(what='check machinery (explore): ' + str(r['skip'])[:300], source=r.get('src')), nofail=True)
+            continue
+        stats['explore_programs'] += 1
+        if r['err']:
+            stats['explore_programs_raising'] += 1
+            ctx.violation('obligation', dict(what='check machinery (explore): generated program raised ' + r['err'], source=r['src']), nofail=True)
+        for pr in r['probes']:
+            sc = pr['scenario']
+            label = (pr['name'] or '').rsplit('_', 1)[-1]
+            if pr['exc']:
+                ctx.deviation(dict(stream='explore', scenario=sc, exc=pr['exc']['exc'], site=pr['exc']['site']),
+                              dict(source=r['src'], line=pr['line'], column=pr['col'], error=pr['exc']), 'Script.infer raised')
+                continue
+            stats['explore_probes'] += 1
+            ctx.count('explore', (r['src'], pr['line'], pr['col']), nontrivial=True)
+            got = {(d[0], d[2]) for d in pr['res'] if d[1] == 'instance'}
+            rt = {tuple(x) for x in pr['runtime']}
+            missing = sorted(rt - got, key=repr)
+            exact = pr['name'].startswith('x_') and len(rt) == 1
+            extra = sorted({(d[0], d[2]) for d in pr['res']} - rt, key=repr) if exact else []
+            if missing or extra:
+                ctx.deviation(dict(stream='explore', scenario=sc, probe=label, cls='class-missing' if missing else 'not-exact'),
+                              dict(source=r['src'], line=pr['line'], column=pr['col'], runtime=sorted(rt, key=repr), infer=pr['res']),
+                              '%s/%s line %d: run-time classes %r, infer reports %r' % (sc, label, pr['line'], sorted(rt, key=repr), pr['res']))
+    for r in results[:1]:
+        if 'src' in r:
+            ctx.sample(dict(stream='explore', source=r['src']))
+
+
+# ------------------------------------------------------------------ run
+def run(ctx):
+    import collections
+    common.setup_jedi(os.path.join(ctx.tmp, 'cache'))
+    ctx.proofs()
+    ctx.cov['fingerprints'] = common.fingerprint(FP)
+    ctx.cov['rule'] = (
+        'core/bind: seeded random programs of the core language (<= 25 statements; bind: one signature x one call, parameters '
+        'returned as a tuple); a case = one probed expression occurrence (infer) or one occurrence x condition input (eval); '
+        'non-trivial = infer reports something / the occurrence was evaluated by the run; distinct by (source, occurrence, input). '
+        'mro: hierarchies over 4 classes from the exhaustive enumeration (bases = ordered selections of <= 2 earlier classes, '
+        'override pattern) plus seeded random hierarchies of 3..6 classes; a case = (class, attribute). '
+        'explore: seeded programs assembled from 18 feature scenarios with random values; a case = one binding occurrence r_*/x_*.')
+    ctx.assumptions += [
+        'function bodies of the core language are closed (parameters, earlier functions, earlier classes); names of functions and classes are unique',
+        'Script.infer is asked at the closing bracket / number / name of an occurrence and at the target name for a whole right-hand side',
+        'the printer from core programs to Python text, the AST-level recorder and the occurrence/path table are harness code',
+        'jedi\'s give-up limits (6 executions per function and query) are not modelled; generated programs stay below them',
+        'exploration scenarios avoid what needs the absent typeshed stubs (builtin calls, None/True/False, str/bytes subscripts, *args forwarding wrappers)']
+    stats = collections.Counter()
+    rng = ctx.rng
+    changed = False
+    # core + bind
+    n_core, n_bind = ctx.n(220, 3000), ctx.n(140, 3000)
+    items = []
+    for i in range(n_core):
+        items.append(('core', i, Gen(rng, rng.randint(6, 25)).run()))
+    for i in range(n_bind):
+        items.append(('bind', n_core + i, gen_bind_prog(rng)))
+    core_stream(ctx, items, stats)
+    # mro
+    allh = list(enum_hier4())
+    rng.shuffle(allh)
+    hiers = allh[:ctx.n(160, 4000)]
+    for _ in range(ctx.n(120, 3000)):
+        hiers.append(gen_hier(rng, rng.randint(3, 6)))
+    mro_stream(ctx, hiers, stats)
+    # explore
+    ex = []
+    for i in range(ctx.n(140, 2500)):
+        src, where = gen_explore(rng, rng.randint(3, 6))
+        ex.append((i, src, where))
+    explore_stream(ctx, ex, stats)
+    ctx.stat('counts', dict(stats))
+    ctx.cov['streams_note'] = ('obligations = the theorems of Props/C02.v; core/bind/mro evaluations tie the Coq models to CPython and to Script.infer; '
+                               'explore is model-free (jedi vs execution only) and contributes no obligations')
+
+
+def replay(ctx, path):
+    rec = json.load(open(path))
+    print(json.dumps({k: v for k, v in rec.items() if k not in ('program', 'hierarchy')}, indent=1, default=repr)[:6000])
+    data = rec.get('input') if isinstance(rec.get('input'), dict) else rec
+    src = data.get('source')
+    if src and data.get('line') is not None:
+        jedi = common.setup_jedi(os.path.join(ctx.tmp, 'cache'))
+        col = data.get('column', 0)
+        res, exc = ask(jedi.Script(src), data['line'], col)
+        print('--- replay: Script.infer(%d, %d) now ->' % (data['line'], col), res if exc is None else exc)
+        if data.get('program') and data.get('expr') is not None and data.get('stmt') is not None:
+            print('--- model:', common.coq_show(IMPORTS, [
+                'map tagN (ainfer_tags %s %d%%nat %s)' % (data['program'], data['stmt'], data['expr'])] + (
+                ['eval %s %s %d%%nat %s' % (data['program'], g_inp(data['inputs']), data['stmt'], data['expr'])] if data.get('inputs') else []))[-1500:])
+    return 0
